@@ -637,6 +637,41 @@ Proof.
   clear -Hf. induction Hf as [|r x rows xs [_ (c & _ & Hc)] _ IH]; intros r' [ ]; subst; [rewrite Hc; apply Rabs_pos | apply IH; assumption].
 Qed.
 
+(* ---------- the rows of a real result and u_component(y, z) of a complex influence ---------- *)
+(* UncertainReal.u_component(z) for z = (xr, xi) with elementary or intermediate parts is the pair
+   of the components for the parts, followed by two zeros ... *)
+Lemma ucomp_rc_parts (N : Num) s (y xr xi : KTypes.ureal (T N)) :
+  (is_elementary N xr || is_intermediate N xr = true) ->
+  (is_elementary N xi || is_intermediate N xi = true) ->
+  ucomp_rc N s y xr xi =
+  (a <- u_component N s y xr ;; b <- u_component N s y xi ;; Ok (a, b, Kernel.zero N, Kernel.zero N)).
+Proof.
+  intros Hr Hi. unfold ucomp_rc, ucomp_part, u_component, is_elementary, is_intermediate in *.
+  destruct (unode xr); try discriminate Hr; destruct (unode xi); try discriminate Hi; reflexivity.
+Qed.
+
+(* ... so the two rows a real budget lists for a requested complex influence z (known finding
+   C17-real-two-rows) are |u_component(y, z)[0]| and |u_component(y, z)[1]|, in this order, with
+   the uids of z.real and z.imag, and u_component(y, z)[2] = [3] = 0 *)
+Theorem real_rows_match_u_component_of_complex s ncx (y xr xi : ureal) lb rv out :
+  (is_elementary RNum xr || is_intermediate RNum xr = true) ->
+  (is_elementary RNum xi || is_intermediate RNum xi = true) ->
+  budget RNum s ncx (@YReal RNum y) (@mkOpts RNum (Some [@IComplex RNum xr xi lb]) 0 None false None rv) = Ok out ->
+  exists a b, u_component_any RNum s (@YReal RNum y) (@IComplex RNum xr xi lb) = Ok [a; b; 0; 0] /\
+              map r_u out = [Rabs a; Rabs b] /\ map r_uid out = [uid_of RNum xr; uid_of RNum xi].
+Proof.
+  intros Hr Hi Hb.
+  destruct (real_budget_influences s ncx y _ rv out Hb) as (xs & Ex & Hf).
+  cbn [expand option_map] in Ex. injection Ex as <-.
+  inversion Hf as [|r1 x1 l1 l1' [Hu1 (a & Ea & Ha)] Hf1]; subst.
+  inversion Hf1 as [|r2 x2 l2 l2' [Hu2 (b & Eb & Hb2)] Hf2]; subst.
+  inversion Hf2; subst.
+  exists a, b. split.
+  - unfold u_component_any. rewrite (ucomp_rc_parts RNum s y xr xi Hr Hi).
+    change (T RNum) with R in *. rewrite Ea, Eb. reflexivity.
+  - cbn [map]. rewrite Hu1, Hu2, Ha, Hb2. split; reflexivity.
+Qed.
+
 (* ---------- declared numbers ---------- *)
 Lemma assoc_app_fresh {A} (l : list (key * A)) k a :
   Kernel.assoc l k = None -> Kernel.assoc (l ++ [(k, a)]) k = Some a.
